@@ -290,3 +290,56 @@ pub fn parse_all(stream: &[u8]) -> Result<Vec<Response>, String> {
         }
     }
 }
+
+/// Like `run`, but every response is obtained through the `command` / `command_list` helpers
+/// (send + receive in one call); a clean end of stream is reported by them as UnexpectedEof.
+pub fn run_via_helpers(flavour: Flavour, stream: &[u8], seg: &Seg, use_list: bool) -> Obs {
+    use mpd_protocol::{Command, CommandList};
+    let st = state(GREETING, stream, seg);
+    let max_responses = stream.len() / 3 + 4;
+    let mut obs = Obs { version: None, responses: Vec::new(), terminal: Terminal::CleanEof, reads: 0, after_terminal_panic: None, accessor_mismatch: None };
+    let list = || CommandList::new(Command::new("a")).command(Command::new("b"));
+    let res = catch(|| match flavour {
+        Flavour::Blocking => {
+            let mut conn = match Connection::connect(ChunkReader(st)) {
+                Ok(c) => c,
+                Err(e) => return terminal_of(&e),
+            };
+            loop {
+                let r = if use_list { conn.command_list(list()) } else { conn.command(Command::new("x")) };
+                match r {
+                    Ok(r) => {
+                        obs.responses.push(observe_response(&r).0);
+                        if obs.responses.len() > max_responses {
+                            return Terminal::NoProgress;
+                        }
+                    }
+                    Err(e) => return terminal_of(&e),
+                }
+            }
+        }
+        _ => block_on(async {
+            let mut conn = match AsyncConnection::connect(AsyncChunkReader::new(st, flavour == Flavour::AsyncPending)).await {
+                Ok(c) => c,
+                Err(e) => return terminal_of(&e),
+            };
+            loop {
+                let r = if use_list { conn.command_list(list()).await } else { conn.command(Command::new("x")).await };
+                match r {
+                    Ok(r) => {
+                        obs.responses.push(observe_response(&r).0);
+                        if obs.responses.len() > max_responses {
+                            return Terminal::NoProgress;
+                        }
+                    }
+                    Err(e) => return terminal_of(&e),
+                }
+            }
+        }),
+    });
+    obs.terminal = match res {
+        Ok(t) => t,
+        Err(p) => Terminal::Panic(p),
+    };
+    obs
+}
